@@ -197,4 +197,16 @@ theorem C08_mini_grow_step_reuse {p p1 : P} {ids ids1 : List Nat} (h : growOneMi
         (∀ m2, m2 ≠ m → m2 / p.per < root.length → miniBlk p2 root m2 = miniBlk p root m2)) :=
   miniGrow_step_reuse h hr ss hroot hp nd
 
+/-- non-vacuity of `C08_mini_grow_step_reuse`: after two small streams were created (mini sectors 0,1 and 2,3)
+and the first was removed, one more mini sector for the second comes from the free list: the root entry's
+length stays the same and the chain becomes [2, 3, 1] — mini sector 1 still holds the removed stream's bytes -/
+def reuseExample : Bool :=
+  let p := (grun { p := Phys.create false, L := fun _ => 0 }
+    [.create 1, .resize 1 100, .create 2, .resize 2 100, .free 1]).p
+  match growOneMini p [2, 3] with
+  | .ok (p1, ids1) => p1.rootLen == p.rootLen && ids1 == [2, 3, 1] && p.rootLen == 256
+  | _ => false
+
+example : reuseExample = true := by decide +kernel
+
 end CfbVerif.Props.C08
